@@ -43,11 +43,21 @@ MANIFEST_ENTRY = {
             "addressed cells), fieldOpGen_values (ndarray / scalar operand with broadcasting), add_fields_values, "
             "remove_fields_values (other columns keep their values; kept columns = names not removed). (7) the "
             "property setters are outside the statement's operation list: units_setter_preserves_invariant, "
-            "fields_setter_rename_preserves_invariant, fields_setter_counterexample, shape_setter_counterexample. The "
+            "fields_setter_rename_preserves_invariant, fields_setter_counterexample, shape_setter_counterexample. (8) objects "
+            "the caller keeps across later operations (Model/VectorView.lean: held _FieldView objects, kept flatten() results, "
+            "the caller's in-place edits of them): shapes_stable_step / shapes_stable_all_histories (no operation, raising or "
+            "not, changes rows / columns / dtype kind of an existing array), restore_after_history and kept_restore (a "
+            "flattened field written back after ANY later history that does not re-bind the vector's cells restores exactly "
+            "the values it was taken with), held_view_reads_named_column (a view made earlier reads the column its field NAME "
+            "has now, after any history), kept_independent, invariant_all_histories_held, stale_view_counterexample (the "
+            "code before repair fbb3a1b). The "
             "model is tied to the code on every run by a step-by-step differential run of random op histories (full "
             "state compared exactly after every step: values, dtype kinds, object identity), and an independent "
             "pure-Python exact-rational reference evaluates the property on the real class (failing-input search).",
-    "note": "Trusted: Lean kernel + propext/Classical.choice/Quot.sound; hand model validated by sampled correspondence "
+    "note": "Measured only (correspondence + oracle, no theorem): field arithmetic whose operand is another field view; "
+            "last-writer-wins for repeated positions in one fancy assignment; that Vector.flatten() (2-D) hands out storage "
+            "of its own (tie only: the property does not speak about it); public signatures / defaults (pinned table). "
+            "Trusted: Lean kernel + propext/Classical.choice/Quot.sound; hand model validated by sampled correspondence "
             "only; NumPy semantics (hstack promotion, fancy column selection, deepcopy memo, in-place column assignment "
             "and its cast, broadcasting of 1-D operands, sequential indexing into a cell array) modelled not verified; "
             "dtypes other than int64/float64, 2-D operands, and slice/list surplus indices of a single-cell assignment "
@@ -57,12 +67,25 @@ MANIFEST_ENTRY = {
                  "column rebuild / assignment loops; row-major bijection lemma for N-D addressing) + model-vs-"
                  "implementation correspondence with alias fingerprints + exact reference-model predicate",
 }
-RULE = ("random op sequences on a world of several vectors sharing arrays; a case is one op applied to a state; "
+RULE = ("random op sequences on a world of several vectors sharing arrays, with field views and flattened arrays the caller "
+        "keeps and uses again later; a case is one op applied to a state; "
         "distinct non-trivial = distinct (op kind, outcome, #fixed dims of target, index kinds used, value kind, "
         "whether the target holds an array that also sits elsewhere) with at least one populated cell in the world")
-TRUSTED = ["NumPy array semantics used by vector.py (np.hstack, arr[:, idx], arr[:, j] = x, copy.deepcopy memo)",
+TRUSTED = ["NumPy array semantics used by vector.py (np.hstack, arr[:, idx], arr[:, j] = x, copy.deepcopy memo, np.concatenate / "
+           "np.vstack return storage of their own)",
            "float64 arithmetic is exact on the generated quarter-integer values (scale bounded by construction)"]
 ASSUMPTIONS = [
+    "held objects: a field view made earlier is used again after later operations (flatten, arithmetic, set_flattened, "
+    "indexing); a kept flatten() result must stay bit-identical under every later operation and is written back later "
+    "(the oracle writes the values it had when it was handed out); when the view's field has been removed nothing is claimed "
+    "(the model follows the code: KeyError once a populated cell is visited). A caller-side edit of a kept array must leave "
+    "every vector unchanged. For Vector.flatten() (2-D) only the tie is checked, no predicate",
+    "arrays handed to the class are drawn over memory layouts with the same logical value (C / Fortran order, every second "
+    "row / column of a private base, negative strides); overlapping views of one base held in two places are NOT generated "
+    "(NumPy would alias them by memory, the heap model aliases by object identity only)",
+    "copy / from_shape / from_data must not share their fields / units LIST objects with another vector, also when the caller "
+    "passes the same list objects to two creation calls; slices (v[idx]) are neither copies nor independently created: no "
+    "claim about their schema lists",
     "every int / list index of every operation is drawn over spellings that denote the same index (Python int, np.int64, "
     "np.int32, np.uint8/int16, lists of NumPy ints, int64/int32/uint8 ndarrays, tuple, range) while the model sees the "
     "plain int / list, so result, error kind and state must equal the plain form; bool (0/1) and 0-d integer arrays are "
@@ -1412,7 +1435,7 @@ class Gen:
         kind = rng.weighted([("setitem", 9), ("set_data", 5), ("getitem", 6 if room else 1), ("get_data", 4), ("field_op", 4), ("field_op_gen", 5), ("field_get", 2),
                              ("set_flattened", 4), ("writeback", 2), ("add_fields", 2), ("remove_fields", 2.5),
                              ("copy", 2 if room else 0), ("meta_set", 2), ("set_data_attr", 1), ("assign_view", 2 if room else 0),
-                             ("view_make", 2 if vroom else 0), ("view_use", 6 if w.views else 0), ("kept_mutate", 1 if w.kept else 0),
+                             ("view_make", 2 if vroom else 0), ("view_use", 6 if w.views else 0), ("kept_mutate", 2.5 if w.kept else 0),
                              ("keep_all", 0.7 if len(w.kept_all) < 3 else 0), ("restore_idiom", 1.5 if (vroom and kroom) else 0),
                              ("stale_idiom", 1.5 if vroom else 0), ("populate", 2)])
         pre = []
@@ -1852,8 +1875,55 @@ def run_ops(ctx, drv, ops_iter, record, setter_rng=None):
     return w, done
 
 
+# public signatures of the anchored API (name, kind, default) — pinned: a changed default (`metadata={}` was a real
+# defect of this class) or a dropped / renamed public parameter is a broken tie, not a silent change
+SIGNATURES = {
+    "Vector.from_shape": [["shape", "POSITIONAL_OR_KEYWORD", "<none>"], ["num_fields", "POSITIONAL_OR_KEYWORD", "None"], ["fields", "POSITIONAL_OR_KEYWORD", "None"], ["units", "POSITIONAL_OR_KEYWORD", "None"], ["name", "POSITIONAL_OR_KEYWORD", "None"]],
+    "Vector.from_data": [["data", "POSITIONAL_OR_KEYWORD", "<none>"], ["num_fields", "POSITIONAL_OR_KEYWORD", "None"], ["fields", "POSITIONAL_OR_KEYWORD", "None"], ["units", "POSITIONAL_OR_KEYWORD", "None"], ["name", "POSITIONAL_OR_KEYWORD", "None"]],
+    "Vector.get_data": [["self", "POSITIONAL_OR_KEYWORD", "<none>"], ["indices", "VAR_POSITIONAL", "<none>"]],
+    "Vector.set_data": [["self", "POSITIONAL_OR_KEYWORD", "<none>"], ["value", "POSITIONAL_OR_KEYWORD", "<none>"], ["indices", "VAR_POSITIONAL", "<none>"]],
+    "Vector.add_fields": [["self", "POSITIONAL_OR_KEYWORD", "<none>"], ["new_fields", "POSITIONAL_OR_KEYWORD", "<none>"]],
+    "Vector.remove_fields": [["self", "POSITIONAL_OR_KEYWORD", "<none>"], ["fields_to_remove", "POSITIONAL_OR_KEYWORD", "<none>"]],
+    "Vector.copy": [["self", "POSITIONAL_OR_KEYWORD", "<none>"]],
+    "Vector.flatten": [["self", "POSITIONAL_OR_KEYWORD", "<none>"]],
+    "_FieldView.flatten": [["self", "POSITIONAL_OR_KEYWORD", "<none>"]],
+    "_FieldView.set_flattened": [["self", "POSITIONAL_OR_KEYWORD", "<none>"], ["values", "POSITIONAL_OR_KEYWORD", "<none>"]],
+}
+NO_MUTABLE_DEFAULT = ["Vector.__init__", "Vector.from_shape", "Vector.from_data", "Vector.__getitem__", "Vector.__setitem__", "_FieldView.__init__",
+                      "nested_list", "validate_shape", "validate_fields", "validate_num_fields", "validate_vector_units",
+                      "validate_vector_data_for_inference", "validate_vector_data"]
+
+
+def check_signatures(ctx):
+    import inspect
+    from quantem.core.datastructures import vector as vmod
+    from quantem.core.utils import validators as val
+
+    def resolve(name):
+        obj = vmod if not name.startswith("validate") else val
+        for part in name.split("."):
+            obj = getattr(obj, part)
+        return obj
+    for name in list(SIGNATURES) + NO_MUTABLE_DEFAULT:
+        ctx.count()
+        ctx.dist["signature-pins"] += 1
+        try:
+            params = list(inspect.signature(resolve(name)).parameters.values())
+        except Exception as e:  # noqa
+            ctx.disagree("vector-signatures", {"function": name}, "present", f"{type(e).__name__}: {e}", note="anchored function missing")
+            continue
+        got = [[p.name, p.kind.name, "<none>" if p.default is inspect._empty else repr(p.default)] for p in params]
+        if name in SIGNATURES and got != SIGNATURES[name]:
+            ctx.disagree("vector-signatures", {"function": name}, SIGNATURES[name], got, note="public signature / defaults changed")
+        bad = [p.name for p in params if isinstance(p.default, (list, dict, set, np.ndarray))]
+        if bad:
+            ctx.disagree("vector-signatures", {"function": name}, "no mutable default argument", bad,
+                         note="a mutable default is shared by every call (all vectors would share it)")
+
+
 def run(ctx):
     from qv.driver import Driver
+    check_signatures(ctx)
     drv = Driver("C11")
     try:
         nseq = min(ctx.n(1000, 10000), 25000)      # the 10x failing-input search is capped (time budget)
